@@ -25,7 +25,13 @@ func histExec(op M) (res any) {
 	}()
 	var regs []*sbom.NodeList
 	for _, r := range asList(op["regs"]) {
-		regs = append(regs, NLOf(r))
+		nl := NLOf(r)
+		if op["spare"] == true {
+			// slices with spare capacity, as lists built with AddNode / AddRootNode have: an append
+			// that forgets to copy writes into storage an earlier result still uses
+			padCapacity(nl, 2)
+		}
+		regs = append(regs, nl)
 	}
 	type step struct {
 		i         string
@@ -141,7 +147,30 @@ func histGen(g *G, tier string) []M {
 			r2 := mk(pool[4:5], pool[4:5])
 			opn := g.Pick([]string{"union", "union", "intersect"})
 			prog := []any{M{"i": opn, "dst": 1.0, "a": 0.0, "b": 1.0}, M{"i": opn, "dst": 2.0, "a": 0.0, "b": 2.0}}
-			ops = append(ops, M{"op": "hist", "regs": []any{r0, r1, r2}, "prog": prog})
+			ops = append(ops, M{"op": "hist", "regs": []any{r0, r1, r2}, "prog": prog, "spare": true})
+			continue
+		}
+		if g.Chance(0.12) && len(asList(regs[0].(M)["nodes"])) >= 2 {
+			// directed: extract, swap one node of the same list for a new one (the list keeps its
+			// size), extract again
+			ns := asList(regs[0].(M)["nodes"])
+			start := asStr(ns[g.Int(len(ns))].(M)["id"])
+			gone := asStr(ns[g.Int(len(ns))].(M)["id"])
+			ext := func() M {
+				switch g.Int(3) {
+				case 0:
+					return M{"i": "nodeGraph", "dst": 1.0, "a": 0.0, "id": start}
+				case 1:
+					return M{"i": "nodeSiblings", "dst": 1.0, "a": 0.0, "id": start}
+				}
+				return M{"i": "nodeDescendants", "dst": 1.0, "a": 0.0, "id": start, "depth": float64(1 + g.Int(4))}
+			}
+			prog := []any{ext()}
+			if gone != start {
+				prog = append(prog, M{"i": "removeNodes", "a": 0.0, "ids": []any{gone}})
+			}
+			prog = append(prog, M{"i": "relateNode", "a": 0.0, "n": g.Node("fresh-node", 0.1), "at": start, "ty": float64(EdgeTypes[g.Int(3)])}, ext(), ext())
+			ops = append(ops, M{"op": "hist", "regs": regs, "prog": prog, "spare": g.Chance(0.5)})
 			continue
 		}
 		prog := []any{}
@@ -175,7 +204,7 @@ func histGen(g *G, tier string) []M {
 				prog = append(prog, M{"i": "purlType", "dst": dst, "a": a, "t": g.Pick([]string{"npm", "deb"})})
 			}
 		}
-		ops = append(ops, M{"op": "hist", "regs": regs, "prog": prog})
+		ops = append(ops, M{"op": "hist", "regs": regs, "prog": prog, "spare": g.Chance(0.5)})
 	}
 	return ops
 }
@@ -235,6 +264,45 @@ func histOracle(op M, res any, exec func(M) any) []Finding {
 		producer[written] = asStr(step["i"])
 		prev = cur
 	}
+	// what a value-returning step returns is a function of the lists as they are at the time of the
+	// call: the same step on fresh lists with the same content gives the same result, whatever was
+	// looked up, extracted or edited before
+	states := asList(res)
+	for k := 1; k < len(states) && k < len(asList(op["prog"])); k++ {
+		step := asList(op["prog"])[k].(M)
+		var props []string
+		switch asStr(step["i"]) {
+		case "nodeGraph", "nodeSiblings", "nodeDescendants":
+			props = []string{"C15"}
+		case "purlType":
+			props = []string{"C16"}
+		case "union":
+			props = []string{"C09"}
+		case "intersect":
+			props = []string{"C10"}
+		default:
+			continue
+		}
+		before := asList(states[k-1])
+		usable := true
+		for _, r := range before {
+			usable = usable && isNL(r)
+		}
+		if !usable {
+			continue
+		}
+		alone, ok := exec(M{"op": "hist", "regs": before, "prog": []any{step}}).([]any)
+		dst := int(asInt(step["dst"]))
+		if !ok || len(alone) != 1 || dst >= len(asList(alone[0])) || dst >= len(asList(states[k])) {
+			continue
+		}
+		if got, want := CanonResult(asList(states[k])[dst]), CanonResult(asList(alone[0])[dst]); !Equal(got, want) {
+			for _, p := range props {
+				out = append(out, Finding{p, fmt.Sprintf("step %d (%v) returns %s after the earlier steps, and %s on fresh lists with the same content", k+1, step["i"], js(got), js(want))})
+			}
+			break
+		}
+	}
 	for k, st := range asList(res) {
 		for ri, r := range asList(st) {
 			if isNL(r) && !View(r).WF() {
@@ -259,6 +327,6 @@ var HistStream = &Stream{
 		}
 		return len(kinds) >= 2
 	},
-	OpProps: func(M) []string { return []string{"C08", "C09", "C10", "C12", "C15"} },
+	OpProps: func(M) []string { return []string{"C08", "C09", "C10", "C12", "C15", "C16"} },
 	Reps:    2,
 }
